@@ -101,6 +101,14 @@ def single_defs(F):
             continue
         elif n.k == "UnaryOperator" and n.d["op"] == "&":
             tgt = n.kids[0].strip()
+        if tgt is not None and tgt.k == "MemberExpr":
+            # fields of objects that came in through a parameter have an incoming value: an assignment
+            # later in the function must not be substituted into earlier uses
+            roots = [r for r in tgt.find("DeclRefExpr")]
+            if any(r.d.get("dk") == "Parm" or r.d.get("g") for r in roots):
+                t = tgt.text()
+                cnt[t] = cnt.get(t, 0) + 2
+                continue
         if tgt is not None and tgt.k in ("DeclRefExpr", "MemberExpr"):
             t = tgt.text()
             cnt[t] = cnt.get(t, 0) + 1
